@@ -72,6 +72,15 @@ def ctor_grid(seed, tag, tier):
     return out
 
 
+def hd_grid(seed, tag, tier):
+    """'/hd' cases: dimension 48-64 with variances ~1e-5 / 1e-6: every matrix is well conditioned, but determinants are far
+    outside the float64 range (their logarithms are not)"""
+    out = [("full", 1, 1, 56, 64)]
+    if tier != "quick":
+        out += [("diag", 1, 1, 64, 48), ("identity", 1, 1, 64, 64)]
+    return out
+
+
 def upd_grid(seed, tag, tier):
     out = [("full", 1, 1, 2, 3), ("identity", 1, 2, 2, 2), ("diag", 2, 1, 3, 2), ("identitydiag", 1, 1, 3, 3)]
     if tier != "quick":
@@ -96,7 +105,7 @@ def case_joint(prop, cls, Rc, Rx, Dy, Dx, tag=""):
         rng = gen.rng_path(m.seed, label)
         fails = []
         c = mk_cond(m, rng, cls, Rc, Dy, Dx, tag=tag)
-        p = mk_pdf(m, rng, Rx, Dx, diag=("pdiag" in tag))      # tag '/pdiag': the prior is a GaussianDiagPDF
+        p = mk_pdf(m, rng, Rx, Dx, diag=("pdiag" in tag), cov_scale=(1e-5 if "hd" in tag else 1.0))      # tag '/pdiag': the prior is a GaussianDiagPDF
         upd_history(m, rng, c, p, "joint", tag)
         j = m.transform("joint", c.reg, p.reg)
         params = dict(cls=cls, Rc=Rc, Rx=Rx, Dy=Dy, Dx=Dx)
@@ -137,7 +146,7 @@ def case_marginal(prop, cls, Rc, Rx, Dy, Dx, tag=""):
         rng = gen.rng_path(m.seed, label)
         fails = []
         c = mk_cond(m, rng, cls, Rc, Dy, Dx, tag=tag)
-        p = mk_pdf(m, rng, Rx, Dx, diag=("pdiag" in tag))      # tag '/pdiag': the prior is a GaussianDiagPDF
+        p = mk_pdf(m, rng, Rx, Dx, diag=("pdiag" in tag), cov_scale=(1e-5 if "hd" in tag else 1.0))      # tag '/pdiag': the prior is a GaussianDiagPDF
         upd_history(m, rng, c, p, "marginal", tag)
         mg = m.transform("marginal", c.reg, p.reg)
         params = dict(cls=cls, Rc=Rc, Rx=Rx, Dy=Dy, Dx=Dx)
@@ -172,7 +181,7 @@ def case_conditional(prop, cls, Rc, Rx, Dy, Dx, tag=""):
         rng = gen.rng_path(m.seed, label)
         fails = []
         c = mk_cond(m, rng, cls, Rc, Dy, Dx, tag=tag)
-        p = mk_pdf(m, rng, Rx, Dx, diag=("pdiag" in tag))      # tag '/pdiag': the prior is a GaussianDiagPDF
+        p = mk_pdf(m, rng, Rx, Dx, diag=("pdiag" in tag), cov_scale=(1e-5 if "hd" in tag else 1.0))      # tag '/pdiag': the prior is a GaussianDiagPDF
         upd_history(m, rng, c, p, "conditional", tag)
         post = m.transform("conditional", c.reg, p.reg)
         params = dict(cls=cls, Rc=Rc, Rx=Rx, Dy=Dy, Dx=Dx)
@@ -278,7 +287,7 @@ def case_info(prop, cls, Rc, Rx, Dy, Dx, tag="", zero_M=False):
             c = Obj(m.cond(Rc, Dy, Dx, M, b, Sigma=S, diag=(cls == "diag")), M=M, b=b, Sigma=S, R=Rc, Dy=Dy, Dx=Dx, cls=cls)
         else:
             c = mk_cond(m, rng, cls, Rc, Dy, Dx, tag=tag)
-        p = mk_pdf(m, rng, Rx, Dx, diag=("pdiag" in tag))      # tag '/pdiag': the prior is a GaussianDiagPDF
+        p = mk_pdf(m, rng, Rx, Dx, diag=("pdiag" in tag), cov_scale=(1e-5 if "hd" in tag else 1.0))      # tag '/pdiag': the prior is a GaussianDiagPDF
         params = dict(cls=cls, Rc=Rc, Rx=Rx, Dy=Dy, Dx=Dx)
         if "hist" in tag:
             # history: the quantities were already computed for these two objects, then both were changed in place
